@@ -7,7 +7,7 @@ from ..absint import Obj
 from ..core import AnalysisError, Ctx, Finding
 from ..docsim import MiniFrame, Tok
 from ..num import Num
-from ..roundtrip import CONFIGS, FORMATS, RT, compare, doc_signature, veq
+from ..roundtrip import BRANCH_PATTERNS, CONFIGS, FORMATS, RT, compare, doc_signature, veq
 
 KINDS = ("base", "point", "model")
 
@@ -22,11 +22,14 @@ def run_format(ctx: Ctx, rt: RT, prop, fmt, expected_tags):
         for config in CONFIGS:
             docs = {}
             for target in targets:
+              for pattern in (BRANCH_PATTERNS if (kind, config, target) == ("point", "abs-molar-K", targets[0]) else ("two",)):
+                rt.branch_pattern = pattern
                 for mp in ((True, False) if (kind, config, target) == ("base", "abs-molar-K", targets[0]) else (True,)):
                     res = rt.roundtrip(w, r, kind, config, target, path_ext=ext, material_props=mp)
+                    rt.branch_pattern = "two"
                     for oc, cons, orig, iso, doc in res:
                         n += 1
-                        case = f"{fmt}|{kind}|{config}|{target}" + ("" if mp else "|plain-material")
+                        case = f"{fmt}|{kind}|{config}|{target}" + ("" if mp else "|plain-material") + ("" if pattern == "two" else f"|branches={pattern}")
                         if oc.kind != "ok":
                             ctx.ob(False, Finding(f"{prop}.RT-roundtrip", rf.where, f"{fmt}|{kind}|raises:{oc.exc.name}",
                                                   f"{case}: export followed by import raises {oc.exc.name}"
@@ -35,7 +38,7 @@ def run_format(ctx: Ctx, rt: RT, prop, fmt, expected_tags):
                             continue
                         diffs, tags = compare(I, kind, cons, orig, iso)
                         ctx.ob(not diffs, None if not diffs else Finding(
-                            f"{prop}.RT-roundtrip", rf.where, f"{fmt}|{kind}|" + ",".join(sorted({d[0] for d in diffs})),
+                            f"{prop}.RT-roundtrip", rf.where, f"{fmt}|{kind}|" + ("" if pattern == "two" else f"branches={pattern}|") + ",".join(sorted({d[0] for d in diffs})),
                             f"{case}: the re-imported isotherm differs from the exported one: " + "; ".join(d[1] for d in diffs[:5]),
                             {"differences": [d[1] for d in diffs]}),
                             nontrivial_key=(case, tuple(c for l, c in oc.decisions)),
@@ -47,7 +50,7 @@ def run_format(ctx: Ctx, rt: RT, prop, fmt, expected_tags):
                                 f"{case}: the data table is written with {core_tags or 'no rounding'}; the documented precision is "
                                 f"exactly {expected_tags} (one rounding to _PARSER_PRECISION decimals, no lossy float format)"),
                                 nontrivial_key=(case, "precision"))
-                        if mp:
+                        if mp and pattern == "two":
                             docs[target] = doc_signature(I, doc)
             if len(docs) == 2:
                 a, b = list(docs.values())
@@ -157,3 +160,47 @@ def r_model_dict(ctx: Ctx, rt: RT, prop):
                        f"model_from_dict(model.to_dict()) differs in {bad}: " +
                        "; ".join(f"{a}: {I.describe(m2.attrs.get(a))} vs {I.describe(m.attrs.get(a))}" for a in bad)),
                nontrivial_key=("model-restore",))
+
+
+def r_branch_canon(ctx: Ctx, rt: RT, prop):
+    """The stored branch column is canonical.  The writers translate marks with value tables (Series.replace(0, 'ads') /
+    == 0 tests) and the identifier hashes the column: both are only total / spelling independent if the constructor - the
+    single place where data_raw is created - normalises whatever the caller gave (list of booleans, boolean or object column)."""
+    ctx.rule("B-canon: PointIsotherm.__init__ ends every way of assigning data_raw['branch'] with one unconditional "
+             "`self.data_raw['branch'] = self.data_raw['branch'].astype(<integer type>)`; no other method stores into that column")
+    ci = rt.model.cls("pygaps.core.pointisotherm.PointIsotherm")
+    init = ci.find_method("__init__")
+
+    def is_store(st):
+        return isinstance(st, ast.Assign) and any(ast.unparse(t) == "self.data_raw['branch']" for t in st.targets)
+    top = []
+    for i, st in enumerate(init.node.body):
+        stores = [x for x in ast.walk(st) if is_store(x)]
+        if stores:
+            top.append((i, st, stores))
+    ctx.floor("stores into data_raw['branch'] in PointIsotherm.__init__", sum(len(x[2]) for x in top), 3)
+    ok, why = False, "no store into data_raw['branch'] at the top level of __init__"
+    if top:
+        i, st, stores = top[-1]
+        inner = st.body[0] if isinstance(st, ast.Try) and len(st.body) == 1 else st
+        why = f"the last store (line {st.lineno}) is `{ast.unparse(inner)[:90]}`"
+        if is_store(inner) and isinstance(inner.value, ast.Call) and isinstance(inner.value.func, ast.Attribute) \
+                and inner.value.func.attr == "astype" and ast.unparse(inner.value.func.value) == "self.data_raw['branch']" \
+                and inner.value.args and ast.unparse(inner.value.args[0]).strip("'\"") in ("int8", "int16", "int32", "int64", "int", "uint8"):
+            ok = True
+    ctx.ob(ok, Finding(f"{prop}.B-canon", init.where, "PointIsotherm.__init__|branch-column-not-normalised",
+                       f"{why}: branch marks are stored as given (booleans from a user list, objects from an importer). "
+                       "Series.replace(0, 'ads') in the CSV/Excel writers does not match booleans (every point is then exported as "
+                       "'False'/'True' and re-imported as desorption) and the identifier depends on the spelling of the same marks"),
+           nontrivial_key=("b-canon",))
+    others = []
+    for m in ci.methods.values():
+        if m.name == "__init__":
+            continue
+        for x in ast.walk(m.node):
+            if isinstance(x, (ast.Assign, ast.AugAssign)) and any("data_raw['branch']" in ast.unparse(t) or 'data_raw["branch"]' in ast.unparse(t)
+                                                                 for t in (x.targets if isinstance(x, ast.Assign) else [x.target])):
+                others.append(f"{m.name}:{x.lineno}")
+    ctx.ob(not others, Finding(f"{prop}.B-canon", ci.where if hasattr(ci, "where") else init.where, f"branch-column-written-outside-init:{others}",
+                               f"data_raw['branch'] is also written in {others}: the normalisation in __init__ no longer covers every stored value"),
+           nontrivial_key=("b-canon-others",))
